@@ -84,6 +84,60 @@ type session struct {
 	forceFlu bool               // flush the table writer after every write (partial-table images)
 	failClose string            // fam/f: the close of this table fails with ENOSPC on its final flush (one shot)
 	extraKind string            // what the next extra image shows (branch label)
+	lastPrint string            // fingerprint of the directory right after the last traced FS operation (main session only)
+	untraced  int               // directory changes that no I/O seam reported (each one got a crash image of its own)
+}
+
+// dirPrint is a fingerprint of a store directory (names, sizes, mtimes, inode numbers of the store's files and
+// of the files one level below). The harness takes it right after every traced FS operation and again when the
+// NEXT seam is entered: a difference means the code changed the directory through a path no seam covers (a
+// new os.Remove / os.Rename call, a new package-level seam the harness does not know). That state is a point
+// "between two file-system operations" like every other: it gets a crash image of its own (extra image, same
+// model prefix) and is judged by the same oracle.
+func dirPrint(root string) string {
+	var sb strings.Builder
+	var walk func(dir string, depth int)
+	walk = func(dir string, depth int) {
+		ents, err := os.ReadDir(dir)
+		if err != nil {
+			sb.WriteString("!" + filepath.Base(dir) + ";")
+			return
+		}
+		for _, e := range ents {
+			fi, err := e.Info()
+			if err != nil {
+				continue
+			}
+			var ino uint64
+			if st, ok := fi.Sys().(*syscall.Stat_t); ok {
+				ino = st.Ino
+			}
+			if e.IsDir() {
+				fmt.Fprintf(&sb, "%s/{", e.Name())
+				if depth < 1 {
+					walk(filepath.Join(dir, e.Name()), depth+1)
+				}
+				sb.WriteString("};")
+				continue
+			}
+			fmt.Fprintf(&sb, "%s:%d:%d:%d;", e.Name(), fi.Size(), fi.ModTime().UnixNano(), ino)
+		}
+	}
+	walk(root, 0)
+	return sb.String()
+}
+
+// pre is called when a seam is entered, BEFORE the file-system operation it stands for is performed.
+func (s *session) pre() {
+	if s == nil || s.muted || s.onOp == nil || s.lastPrint == "" {
+		return
+	}
+	if cur := dirPrint(s.root); cur != s.lastPrint {
+		s.untraced++
+		s.extraKind = "untraced-fs-change"
+		s.lastPrint = cur
+		s.onOp(true)
+	}
 }
 
 var (
@@ -132,6 +186,7 @@ func (s *session) record(o fsop, extra bool) {
 	}
 	if s.onOp != nil {
 		s.onOp(extra)
+		s.lastPrint = dirPrint(s.root)
 	}
 }
 
@@ -171,6 +226,7 @@ func (w *manifestWriter) Write(p []byte) (int, error) {
 }
 
 func (w *manifestWriter) Sync() error {
+	w.s.pre()
 	err := w.BufioWriter.Sync()
 	for _, r := range w.pending {
 		w.s.record(recOp(w.n, r), false)
@@ -212,6 +268,9 @@ func (w *tableWriter) Write(p []byte) (int, error) {
 		// the bytes stay in the (emulated) write buffer: the final flush is the one that fails
 		return len(p), nil
 	}
+	if w.s != nil && w.s.forceFlu {
+		w.s.pre()
+	}
 	n, err := w.BufioWriter.Write(p)
 	if w.s != nil && w.s.forceFlu && !w.s.muted {
 		_ = w.BufioWriter.Flush()
@@ -227,6 +286,7 @@ func (w *tableWriter) Close() error {
 		_ = w.BufioWriter.Close()
 		return syscall.ENOSPC
 	}
+	w.s.pre()
 	err := w.BufioWriter.Close()
 	if w.s != nil && !w.s.muted {
 		key := fmt.Sprintf("%d/%d", w.fam, w.f)
@@ -270,6 +330,7 @@ type lockWrap struct {
 }
 
 func (l *lockWrap) Unlock() error {
+	l.s.pre()
 	err := l.FileLock.Unlock()
 	l.s.record(fsop{kind: "lock-", tok: "lock-"}, false)
 	return err
@@ -312,6 +373,7 @@ func installSeams() (restore func()) {
 	r1 := version.VerifC01SetIO(
 		func(fileName string) (bufioutil.BufioWriter, error) {
 			s := findSession(fileName)
+			s.pre()
 			existed := exists(fileName)
 			w, err := bufioutil.NewBufioEntryWriter(fileName)
 			if err != nil || s == nil {
@@ -331,6 +393,7 @@ func installSeams() (restore func()) {
 		},
 		func(name string, data []byte, perm os.FileMode) error {
 			s := findSession(name)
+			s.pre()
 			if s != nil && s.onOp != nil && !s.muted {
 				// os.WriteFile = truncating open, write, close: the point after the open is a crash point
 				// (the file exists and is empty). Same model prefix: nobody reads CURRENT.tmp.
@@ -352,6 +415,7 @@ func installSeams() (restore func()) {
 			return err
 		},
 		func(oldPath, newPath string) error {
+			findSession(newPath).pre()
 			err := os.Rename(oldPath, newPath)
 			if s := findSession(newPath); s != nil {
 				tok := "currename"
@@ -363,6 +427,7 @@ func installSeams() (restore func()) {
 			return err
 		})
 	r2 := table.VerifC01SetNewWriter(func(fileName string) (bufioutil.BufioWriter, error) {
+		findSession(fileName).pre()
 		w, err := bufioutil.NewBufioStreamWriter(fileName)
 		s := findSession(fileName)
 		if err != nil || s == nil {
@@ -379,6 +444,7 @@ func installSeams() (restore func()) {
 	cur := kv.VerifC01CurrentSeams()
 	r3 := kv.VerifC01SetSeams(kv.VerifC01Seams{
 		Remove: func(name string) error {
+			findSession(name).pre()
 			err := cur.Remove(name)
 			if s := findSession(name); s != nil {
 				if n, ok := parseManifestNo(filepath.Base(name)); ok {
@@ -390,6 +456,7 @@ func installSeams() (restore func()) {
 			return err
 		},
 		RemoveDir: func(path string) error {
+			findSession(path).pre()
 			err := cur.RemoveDir(path)
 			if s := findSession(path); s != nil {
 				if fam, f, ok := parseTablePath(s.root, path); ok {
@@ -401,6 +468,9 @@ func installSeams() (restore func()) {
 			return err
 		},
 		MkDir: func(path string) error {
+			gateAt("pre-mkfam")
+			defer gateAt("post-mkfam")
+			findSession(path).pre()
 			existed := exists(path)
 			err := cur.MkDir(path)
 			if s := findSession(path); s != nil && !existed {
@@ -414,6 +484,8 @@ func installSeams() (restore func()) {
 			return err
 		},
 		EncodeToml: func(fileName string, v interface{}) error {
+			gateAt("pre-opts")
+			findSession(fileName).pre()
 			err := cur.EncodeToml(fileName, v)
 			if s := findSession(fileName); s != nil {
 				s.record(fsop{kind: "opts", tok: optsTok(fileName)}, false)
@@ -421,6 +493,7 @@ func installSeams() (restore func()) {
 			return err
 		},
 		NewFileLock: func(fileName string) (lockers.FileLock, error) {
+			findSession(fileName).pre()
 			existed := exists(fileName)
 			l, err := cur.NewFileLock(fileName)
 			s := findSession(fileName)
@@ -808,6 +881,7 @@ type hist struct {
 	noImages bool   // bulk phase of a directed scenario: no crash images (the FS operations are still traced)
 	probeFam string // while the images of a createfam are checked: the family being created ...
 	probeThr int    // ... and its CompactThreshold
+	via      map[string]kv.Family // flushes of this family go through this handle (a creator's own handle) instead of GetFamily
 	scripted bool   // a directed scenario: no random deaths
 	forceDie string // die once at the first image whose previous operation has this kind (inside the next op that has one)
 }
@@ -988,6 +1062,10 @@ func (h *hist) checkImages(opDesc string, ops []fsop, before, after string, pris
 		if im.opIdx == 0 {
 			prev = "start"
 		}
+		if im.extra && im.extraKind == "untraced-fs-change" {
+			// the directory changed between these two traced operations through a path no I/O seam reports
+			next = "[untraced directory change]>" + next
+		}
 		if im.extra && im.extraKind != "" {
 			h.c.Branch("point:" + im.extraKind)
 		} else if im.extra {
@@ -1142,12 +1220,20 @@ func (h *hist) beginOp(name string) (before string) {
 	if name == "createfam" {
 		h.takeImage(false) // the cut before the first FS operation: the family must still be creatable
 	}
+	h.sess.lastPrint = dirPrint(h.root)
 	return h.lastObs
 }
 
 // finishOp emits the protocol line of the operation that just ran, checks its crash images and (maybe) dies.
 func (h *hist) finishOp(name, opLine, out, before string, dieAllowed bool) {
+	h.sess.pre() // a directory change after the operation's last traced FS operation
 	ops := append([]fsop(nil), h.sess.ops...)
+	if h.sess.untraced > 0 {
+		// the I/O seams no longer cover every file-system operation of the code: the model cannot know this trace
+		out += fmt.Sprintf(" untraced-fs-changes=%d", h.sess.untraced)
+		h.c.Branch("region:untraced-fs-change")
+		h.sess.untraced = 0
+	}
 	h.c.Op(opLine, out)
 	after := before
 	if h.store != nil && !h.failed {
@@ -1311,6 +1397,9 @@ func (h *hist) doCreateFamily(name string, thr int) {
 func (h *hist) doFlushStart(name string, seqs, kvs [][2]int64) {
 	h.runOp("fstart", true, func() (string, string, bool) {
 		f := h.store.GetFamily(name)
+		if v, ok := h.via[name]; ok && v != nil {
+			f = v
+		}
 		fl := f.NewFlusher()
 		for _, s := range seqs {
 			fl.Sequence(int32(s[0]), s[1])
@@ -1711,7 +1800,37 @@ func runCase(c *core.Ctx, i int, maxOps int) error {
 			h.doCompact(h.fams[rng.Intn(len(h.fams))])
 		case "edit":
 			name := h.fams[rng.Intn(len(h.fams))]
-			h.doEdit(name, genEdit(h, name, rng))
+			toks := genEdit(h, name, rng)
+			if rng.Intn(3) > 0 {
+				h.doEdit(name, toks)
+				break
+			}
+			// the commit as the atomic steps the code has (see sched.go): while the committer is parked at a point
+			// outside vs.mutex, complete flushes of random families (allocation + commit) run; no process death
+			// inside the window (the parked goroutine belongs to the live store)
+			var chunks []func()
+			for n := 1 + rng.Intn(2); n > 0; n-- {
+				fam := h.fams[rng.Intn(len(h.fams))]
+				kvs := h.randKVs(1 + rng.Intn(3))
+				var seqs [][2]int64
+				if rng.Intn(2) == 0 {
+					seqs = [][2]int64{{1, int64(rng.Intn(1000))}}
+				}
+				chunks = append(chunks, func() {
+					if _, busy := h.flushers[fam]; busy || h.failed || h.store == nil {
+						return
+					}
+					h.doFlushStart(fam, seqs, kvs)
+					if _, ok := h.flushers[fam]; ok && !h.failed && h.store != nil {
+						h.doFlushCommit(fam)
+					}
+				})
+			}
+			saved := h.scripted
+			h.scripted = true
+			h.doSplitEdit(name, toks, chunks)
+			h.scripted = saved
+			c.Branch("region:random-split-commit")
 		case "close":
 			h.doClose()
 		}
@@ -1734,7 +1853,7 @@ func runCase(c *core.Ctx, i int, maxOps int) error {
 }
 
 // nScenarios directed histories run first in every seed (values are still drawn from the case's PRNG).
-const nScenarios = 6
+const nScenarios = 8
 
 func (h *hist) randKVs(n int) [][2]int64 {
 	var kvs [][2]int64
@@ -1788,9 +1907,42 @@ func runScenario(h *hist, which int) {
 		})
 	}
 	thr := 2
+	if which == 7 {
+		twoObjectsWitness(h)
+		return
+	}
 	open()
 	step(func() { h.doCreateFamily("10", thr) })
 	switch which {
+	case 6:
+		// concurrent creators of one new family, the first one parked at each of its file-system seams in turn;
+		// then flushes through BOTH handles (start, commit: all crash images), compaction, close, reopen
+		h.c.Branch("scenario:concurrent-creators")
+		step(func() { h.flushNow("10", true) })
+		for i, point := range []string{"pre-opts", "pre-mkfam", "post-mkfam"} {
+			name := []string{"11", "12", "13"}[i]
+			var hA, hB kv.Family
+			step(func() { hA, hB = h.doRaceCreate(name, 1+i, point) })
+			for _, via := range []kv.Family{hA, hB} {
+				via := via
+				step(func() {
+					if via == nil {
+						return
+					}
+					h.via = map[string]kv.Family{name: via}
+					h.flushNow(name, true)
+					h.via = nil
+				})
+			}
+			h.via = nil
+		}
+		step(func() { h.doCompact("11") })
+		step(func() { h.doCompact("12") })
+		closeS()
+		open()
+		step(func() { h.flushNow("12", false) })
+		closeS()
+		open()
 	case 0:
 		h.c.Branch("scenario:idle-session-then-open")
 		step(func() { h.flushNow("10", true) })
